@@ -39,7 +39,7 @@ type EzB struct {
 	ConfFile string
 	SvcName  rty.NName `dialsalias:"old_name"`
 	Backend  EzBBackend
-	Standby  *EzBBackend `dials:"standby"`
+	Standby  *EzBBackend `dials:"standby" dialsalias:"spare"` // an aliased struct with aliased leaves
 	Ratio    float64
 }
 
@@ -224,7 +224,7 @@ func (g *gen) walk(t reflect.Type, path []string, underAlias bool) {
 			g.walk(ft, p, underAlias || aliased)
 			if aliased && !underAlias && len(g.leaves) > mark {
 				k := mark + g.r.Intn(len(g.leaves)-mark)
-				g.targets = append(g.targets, target{path: p, inner: g.leaves[k][len(p):], leaf: g.leafT[k]})
+				g.targets = append(g.targets, target{path: p, inner: g.leaves[k][len(p):], leaf: g.leafT[k], innerAl: g.leafAl[k]})
 			}
 		case (ft.Kind() == reflect.Slice || ft.Kind() == reflect.Array) && ft.Elem().Kind() == reflect.Struct:
 			// the first element of a slice / array of structs (an alias on the
@@ -236,6 +236,7 @@ func (g *gen) walk(t reflect.Type, path []string, underAlias bool) {
 			}
 			g.leaves = append(g.leaves, p)
 			g.leafT = append(g.leafT, sf.Type)
+			g.leafAl = append(g.leafAl, aliased && underAlias)
 		}
 	}
 }
